@@ -41,15 +41,15 @@ check("C11", "exploration",
       "deterministic simulation with fault injection (keystream exhaustion) + reference model", "6.2")
 
 check("C03", "exploration",
-      "Every seeded run of the cipher, block-API and dispatching-hash scenarios is executed on all five run-time capability levels in one process (hook H1 makes the detection result a simulated input) and, with the same seed, in six separately built workers (portable/no_simd and the five no-std compile-time dispatch arms); transcripts must be identical after every step / per run. A panic or wrong result on one host where another returns is a violation.",
-      "Trusted: hook H1 takes exactly the arm a real CPU of that level would take (its match arms mirror the detection chains); the real CPU must support the simulated level (AVX2 here). Vector operations that no algorithm uses are not exercised.",
+      "Every seeded run of the cipher, block-API and dispatching-hash scenarios is executed on all five run-time capability levels in one process (hook H1 makes the detection result a simulated input) and, with the same seed, in six separately built workers (portable/no_simd and the five no-std compile-time dispatch arms); transcripts must be identical after every step / per run. Seeded programs of vector operations (every operation group of the Machine trait bounds, all ten vector types) run on the five x86 Machine types at once and on the generic machine. A big-endian host (s390x build interpreted by Miri) executes the same seeded operation list as its little-endian twin. A panic or wrong result on one host where another returns is a violation.",
+      "Trusted: hook H1 takes exactly the arm a real CPU of that level would take (its match arms mirror the detection chains); the real CPU must support the simulated level (AVX2 here). For vector operations only cross-backend identity is judged. One open known finding: JH digests on the big-endian host (known_findings.json).",
       "deterministic simulation: simulated CPU-capability hosts (run-time via hook, build-time via features) + cross-host transcript equality", "6.5")
 check("C08", "exploration",
       "Seeded search over update/chain/clone/reset/finalize_reset/finalize/drop histories on interleaved instances of all 15 hash types (+4 more Skein output sizes), pieces aimed at every buffer fill level and padding boundary; every digest is compared with the same type's one-shot digest of the modelled byte string, so only history dependence (not spec conformance) can raise an alarm.",
       "Trusted: the byte-list model; Digest::digest of the same type as oracle. Runs are capped at 64 KiB.",
       "deterministic simulation: seeded operation histories + byte-list reference model", "6.6")
 check("C14", "exploration",
-      "Seeded block-API histories with counters aimed at every carry lane (low word within 4 of 2^32) and at the 2^64 wrap, double rounds 0..=10, on every simulated host (five in-process levels, portable and five no-std builds): refill4 versus four refills from a cloned state (bytes and resulting state), counter/stream-id read back after every step, emitted block compared with the spec block of the modelled counter.",
+      "Seeded block-API histories with counters aimed at every carry lane (low word within 4 of 2^32) and at the 2^64 wrap, double rounds 0..=10, on every simulated host (five in-process levels, portable and five no-std builds): refill4 versus four refills from a cloned state (bytes and resulting state), counter/stream-id read back after every step, emitted block compared with the spec block of the modelled counter. The cfg(target_endian = big) counter helpers run on a big-endian simulated host (s390x build under Miri) whose transcript is compared with the little-endian twin.",
       "Trusted: the counter model; the spec block function only to recognise position errors (a block that equals the spec block of a nearby counter). Other spec deviations are C01 territory.",
       "deterministic simulation: seeded operation histories on simulated hosts + state model + real-code differential", "6.3")
 check("C15", "exploration",
@@ -58,7 +58,7 @@ check("C15", "exploration",
       "deterministic simulation: seeded operation histories + state model", "6.4")
 
 check("C16", "fault_enumeration",
-      "Every byte-slice argument of every public operation is placed by a guard-page arena the simulator owns; the injected fault is the page fault (or a changed canary) that an access outside the slice causes. Both tiers enumerate completely the 3 placements x 64 start alignments / length residues for every (operation kind, buffered-prefix class, length class, simulated host level) combination; data contents are sampled. The result must equal the same call on an ordinary buffer and the process must survive.",
+      "Every byte-slice argument of every public operation is placed by a guard-page arena the simulator owns; the injected fault is the page fault (or a changed canary) that an access outside the slice causes. Both tiers enumerate completely the 3 placements x 64 start alignments / length residues for every (operation kind, buffered-prefix class, length class, simulated host level) combination; data contents are sampled. The result must equal the same call on an ordinary buffer and the process must survive. A second pass runs the operations under Miri with every slice an exact-size allocation (byte-granular bounds and alignment checking), which sees what page granularity cannot.",
       "Trusted: mmap/mprotect semantics of Linux; an out-of-slice READ that stays inside the mapped page is not observable (both edge placements are enumerated to minimise this); input slices are read-only pages. Vector code paths per host level through hook H1; explicit Machine types for vector byte I/O.",
       "deterministic simulation with fault injection: simulator-owned buffer placement against unmapped pages, complete enumeration of placements/alignments", "6.7")
 check("C17", "exploration",
